@@ -111,22 +111,25 @@ Qed.
 Lemma forallb_memb (f : N -> bool) l n : forallb f l = true -> memb n l = true -> f n = true.
 Proof. intros H Hn. rewrite forallb_forall in H. apply H. now apply memb_In. Qed.
 
-Theorem restriction_sound a b :
-  wtns a = wtns b -> is_restriction a b = true ->
+Theorem restriction_sound_tns a b :
+  is_restriction a b = true ->
   forall n, n <> xsi -> allowed a n = true -> allowed b n = true.
 Proof.
-  intros Ht Hr n Hn.
-  destruct a as [sa t], b as [sb t']. cbn [wtns] in *. subst t'.
+  intros Hr n Hn.
+  destruct a as [sa t], b as [sb t']. cbn [wtns] in *.
   unfold is_restriction in Hr; cbn [sh wtns ns_eq] in Hr.
   destruct sa as [| |l|l], sb as [| |l'|l']; norm_allowed Hn; try discriminate; try tauto.
+  - (* SOther, SOther *)
+    cbn [andb] in Hr. destruct (N.eqb_spec t t') as [->|]; [tauto | discriminate].
   - (* SOther, SNot *)
     intro Hm. apply negb_true_iff. destruct (memb n l') eqn:Hl'; [|reflexivity].
     rewrite subsetb_spec in Hr. apply Hr in Hl'. revert Hl' Hm. cbn [memb]. split_bools.
   - (* SList, SOther *)
     apply andb_prop in Hr as [H1 H2]. apply negb_true_iff in H1, H2. intro Hm.
     destruct (N.eqb_spec n 0) as [->|]; [congruence|].
-    destruct (N.eqb_spec n t) as [->|]; [congruence|]. reflexivity.
+    destruct (N.eqb_spec n t') as [->|]; [congruence|]. reflexivity.
   - (* SList, SList *)
+    rewrite andb_true_r in Hr.
     assert (Hs : subsetb l l' = true) by (destruct (seteqb l l') eqn:Hs;
       [unfold seteqb in Hs; now apply andb_prop in Hs | exact Hr]).
     intro Hm. rewrite subsetb_spec in Hs. now apply Hs.
@@ -135,11 +138,25 @@ Proof.
   - (* SNot, SOther *)
     apply andb_prop in Hr as [H1 H2]. intro Hm. apply negb_true_iff in Hm.
     destruct (N.eqb_spec n 0) as [->|]; [congruence|].
-    destruct (N.eqb_spec n t) as [->|]; [congruence|]. reflexivity.
+    destruct (N.eqb_spec n t') as [->|]; [congruence|]. reflexivity.
   - (* SNot, SNot *)
     intro Hm. apply negb_true_iff in Hm. apply negb_true_iff.
     destruct (memb n l') eqn:Hl'; [|reflexivity].
     rewrite subsetb_spec in Hr. apply Hr in Hl'. congruence.
+Qed.
+
+Theorem restriction_sound a b :
+  wtns a = wtns b -> is_restriction a b = true ->
+  forall n, n <> xsi -> allowed a n = true -> allowed b n = true.
+Proof. intros _. apply restriction_sound_tns. Qed.
+
+(* the old rule accepts ##other (target namespace 5) against ##other (target namespace 6): 6 is admitted by the first only *)
+Theorem restriction_old_refuted :
+  exists a b n, is_restriction_old a b = true /\ is_restriction a b = false /\ n <> xsi /\
+                allowed a n = true /\ allowed b n = false.
+Proof.
+  exists {| sh := SOther; wtns := 5 |}, {| sh := SOther; wtns := 6 |}, 6%N.
+  repeat split; try reflexivity. discriminate.
 Qed.
 
 Lemma existsb_memb (f : N -> bool) l :
